@@ -13,8 +13,9 @@ def registry():
     import props_solve
     import props_store
     import props_enc
+    import props_fault
     props = {}
-    for mod in (props_solve, props_store, props_enc):
+    for mod in (props_solve, props_store, props_enc, props_fault):
         for name in dir(mod):
             c = getattr(mod, name)
             if isinstance(c, type) and issubclass(c, engine.Property) and getattr(c, "id", None):
